@@ -21,7 +21,7 @@
        not, from inside or outside the parent), under the consistency of the history store that every run maintains.
    PARTIAL: (4) is proved per transition (every transition of every run by the C01 run invariant); timer / service
    non-interference for siblings follows from (3) only for what is cancelled. *)
-From XSM Require Import Model.Macro Proofs.PhaseP Proofs.LegalP Proofs.SortP Proofs.StepP Proofs.DescentP Proofs.EffectP Proofs.AccountP Proofs.HistoryP Proofs.IdP Proofs.GeomBridge Model.TreeLib Gen.GenGeom.
+From XSM Require Import Model.Macro Proofs.PhaseP Proofs.LegalP Proofs.SortP Proofs.StepP Proofs.DescentP Proofs.EffectP Proofs.AccountP Proofs.HistoryP Proofs.IdP Proofs.GeomBridge Proofs.SourceGeomP Model.TreeLib Gen.GenGeom.
 From Coq Require Import Sorting.Sorted.
 
 Theorem C03_phases_and_event_identity : forall eng pr m t tgt ev s0 s1,
@@ -156,6 +156,14 @@ Print Assumptions C03_exit_set_is_the_source.
 Theorem C03_entry_path_is_the_source : forall m t d, GenGeom.get_path_to_state m t (Some d) = path_to m t d.
 Proof. exact get_path_bridge. Qed.
 Print Assumptions C03_entry_path_is_the_source.
+(* ... and composed as the source composes them, the whole transition: out of a legal configuration `exec_external_src` (the
+   transition run with the source's own domain / exit set / entry paths) is `exec_external`, the function the phase, order and
+   accounting theorems above are about *)
+Theorem C03_transition_is_the_source : forall m, ancestry_side_ok m = true -> forall eng pr t tgt ev s0,
+  Legal m (s_cfg s0) -> In (t_src t) (s_cfg s0) -> tgt < size m ->
+  exec_external_src eng pr m t tgt ev s0 = exec_external eng pr m t tgt ev s0.
+Proof. exact exec_external_src_eq. Qed.
+Print Assumptions C03_transition_is_the_source.
 
 (* the machine of former finding F21 (repaired in /repo by the fix that also closes F34, see known_findings.json): parallel
    machine {a (entry 1, exit 2; H -> #m.h; OUT -> reenter a), h: history}.  After OUT has recorded history, H used to
